@@ -21,4 +21,7 @@ for r in regress[:40]:
     print("  REGRESSION", r)
 seen = passed | failed
 print(f"stable_pass covered by this run: {len(base & seen)}/{len(base)}")
+if not args:
+    for r in sorted(base - seen)[:20]:
+        print("  NOT-RUN-OR-SKIPPED", r)
 sys.exit(1 if regress else 0)
